@@ -382,7 +382,8 @@ Upd(s0, e) ==
     [] e.ev = "ticklocked" -> DoTickLocked(s, e)
     [] e.ev = "hang" -> DoHang(s, e)
     [] e.ev = "end" -> DoEnd(s, e)
-    [] e.ev = "census" -> Vif(s, e.after > e.before, "C10", "background_goroutine_alive_after_close")
+    [] e.ev = "census" -> Vif(Vif(s, e.after > e.before, "C10", "background_goroutine_alive_after_close"),
+                              e.qgrow > 0, "C10", "write_after_close_still_queues_policy_events")
     [] e.ev = "closecancel" -> [s EXCEPT !.closed = TRUE]
     [] e.ev = "stall" -> [s EXCEPT !.stalled = (e.on = 1)]
     [] e.ev = "mlocked" -> [s EXCEPT !.stalled = TRUE]
